@@ -451,15 +451,8 @@ def oracle_scenario(check, c):
     stack = []      # list of (ctx, params) most recent first
 
     def chain_defaults():
-        for cx, pr in reversed(stack):
-            if cx["rules"]:
-                r0 = cx["rules"][0]
-                for cx2, pr2 in stack:
-                    for r in cx2["rules"]:
-                        if (r["src"], r["dst"]) == (r0["src"], r0["dst"]) or (r["bidir"] and (r["dst"], r["src"]) == (r0["src"], r0["dst"])):
-                            return pr2
-                return {}
-        return {}
+        # "else from the enclosing active context": the most recently enabled one, which already carries what it inherited
+        return stack[0][1] if stack else {}
 
     def plain_root(name):
         pf, uu = P.proj.resolve(name)
